@@ -62,19 +62,25 @@ Fixpoint term_cmp (a b : term) : comparison :=
   | c => c
   end.
 
-(* Term::hash: the sequence of writes made to the Hasher.
-   `Hash for str` writes the bytes followed by 0xff; we keep code points and use 1114112
-   (one past the largest code point) as the terminator so that the stream stays
-   prefix-free exactly as with 0xff on UTF-8 bytes.
-   `TermKind: Hash` (derived) writes the discriminant as isize; `char: Hash` writes u32. *)
-Definition str_end : N := 1114112.
-Definition hash_str (s : str) : list N := s ++ [str_end].
+(* Term::hash: the exact byte sequence written to the Hasher (64-bit little-endian target).
+   `TermKind: Hash` (derived) writes the discriminant with write_isize (8 bytes);
+   `Hash for str` writes the UTF-8 bytes followed by 0xff; `char: Hash` writes a u32 (4 bytes);
+   LanguageTag::hash writes each ASCII-lower-cased char as a u32, no terminator. *)
+Definition utf8_1 (c : N) : list N :=
+  if c <? 128 then [c]
+  else if c <? 2048 then [192 + c / 64; 128 + c mod 64]
+  else if c <? 65536 then [224 + c / 4096; 128 + (c / 64) mod 64; 128 + c mod 64]
+  else [240 + c / 262144; 128 + (c / 4096) mod 64; 128 + (c / 64) mod 64; 128 + c mod 64].
+Definition utf8 (s : str) : list N := flat_map utf8_1 s.
+Fixpoint le_bytes (k : nat) (n : N) : list N :=
+  match k with O => [] | S k' => (n mod 256) :: le_bytes k' (n / 256) end.
+Definition hash_str (s : str) : list N := utf8 s ++ [255].
 Fixpoint hash_stream (t : term) : list N :=
-  kind_rank (kind_of t) ::
+  le_bytes 8 (kind_rank (kind_of t)) ++
   match t with
   | Iri s | Bnode s | Var s => hash_str s
   | LitDt l d => hash_str l ++ hash_str d
-  | LitLang l tg => hash_str l ++ [64] ++ lower tg   (* LanguageTag::hash: folded chars, no terminator *)
+  | LitLang l tg => hash_str l ++ le_bytes 4 64 ++ flat_map (le_bytes 4) (lower tg)
   | Triple s p o => hash_stream s ++ hash_stream p ++ hash_stream o
   end.
 
